@@ -173,7 +173,7 @@ Definition is_done (o : outcome) : Prop := exists a b, o = ODone a b.
 Definition pay_view (p : payload) (v : sess) : Prop :=
   p_ms p = s_ms v /\ p_ver p = s_ver v /\ p_suite p = s_suite v /\ p_hash p = s_hash v /\
   p_ccert p = s_ccert v /\ p_etm p = s_etm v /\ p_ems p = s_ems v /\ p_sni p = s_sni v /\
-  p_origin p = s_origin v.
+  p_origin p = s_origin v /\ p_srp p = s_srp v.
 
 (* closed world of ticket bytes: issued by a server, altered, or made without a key *)
 Definition blob_ok (issued : list (Z * Z * payload)) (b : blob) : Prop :=
